@@ -1499,6 +1499,8 @@ pub fn c19_eval_cell_after<D: Dec>(run: &mut Run, hist: &[u8], p: Pfx, code: u8,
             format!("make=Up({:?})", k),
             format!("{}: make form [{}] decodes as a release of {:?}", D::NAME, hex(&make), k),
         ),
+        #[allow(unreachable_patterns)]
+        Some((_, _)) => {}
         None => {
             if let Some((k2, KeyState::Up)) = bk {
                 if !make_incomplete || !brk_incomplete {
@@ -1520,6 +1522,8 @@ pub fn c19_eval_cell_after<D: Dec>(run: &mut Run, hist: &[u8], p: Pfx, code: u8,
             // a break form that decodes as a one-shot status event is neither a press nor a
             // release: the statement puts the one-shot status codes aside, nothing to check
             KeyState::SingleShot => {}
+            #[allow(unreachable_patterns)]
+            _ => {}
         }
     }
 }
@@ -1678,6 +1682,8 @@ fn c19_per_state<D: Dec>(run: &mut Run) {
                     }
                     Some((_, KeyState::SingleShot)) => true,
                     Some((_, KeyState::Up)) => false,
+                    #[allow(unreachable_patterns)]
+                    Some((_, _)) => true,
                     None => !matches!(bk, Some((_, KeyState::Up))) || (matches!(om, Ok(None)) && matches!(ob, Ok(None))),
                 } && !matches!(bk, Some((_, KeyState::Down)));
                 if !ok && bad.len() < 6 {
@@ -1794,6 +1800,8 @@ fn c19_after_long_histories<D: Dec>(run: &mut Run) {
                     }
                     Some((_, KeyState::SingleShot)) => true,
                     Some((_, KeyState::Up)) => false,
+                    #[allow(unreachable_patterns)]
+                    Some((_, _)) => true,
                     None => !matches!(bk, Some((_, KeyState::Up))),
                 } && !matches!(bk, Some((_, KeyState::Down)));
                 if !ok && bad.len() < 4 { bad.push((hi, *p, *c, "pair")); }
